@@ -116,7 +116,7 @@ End NoError.
 Section StreamViolation.
   Variable cf : cfg.
   Variable app : strategy.
-  Hypothesis app_passive : passive app.
+  Hypothesis app_benign : benign app.
   Hypothesis no_ping_timeout : zpos (c_ping_timeout cf) = None.
 
   (* the offending frame: a well-formed data frame in the wrong place -- a continuation with nothing to continue, or a
@@ -136,7 +136,7 @@ Section StreamViolation.
     perrors (k_tr (fst r)) = false :: perrors (k_tr c).
   Proof.
     intros Hidle Hdh Hpl Hforms Href Hpf Hform Hv (Hnc & Hplace). cbv zeta.
-    destruct (deliver_frames cf app app_passive no_ping_timeout fs lfs c open ms open' Hidle Hdh Hpl Hforms Href)
+    destruct (deliver_frames cf app app_benign no_ping_timeout fs lfs c open ms open' Hidle Hdh Hpl Hforms Href)
       as (c1 & E1 & Hidle1 & Hdh1 & M1 & _ & _).
     pose proof (feed_ok_no_protocol_error cf app c _ c1 E1) as P1.
     rewrite (feed_split cf app (length (encode_all fs lfs)) (encode_all fs lfs) (enc_frame f lf ++ rest) c (le_n _) (idle_ok c open Hidle)).
@@ -234,7 +234,7 @@ Qed.
 Section HeaderViolation.
   Variable cf : cfg.
   Variable app : strategy.
-  Hypothesis app_passive : passive app.
+  Hypothesis app_benign : benign app.
   Hypothesis no_ping_timeout : zpos (c_ping_timeout cf) = None.
 
   Theorem header_violation_after_prefix fs lfs c open ms open' h lf len rest :
@@ -247,7 +247,7 @@ Section HeaderViolation.
     perrors (k_tr (fst r)) = false :: perrors (k_tr c).
   Proof.
     intros Hidle Hdh Hpl Hforms Href Hm Hop Hf Hv. cbv zeta.
-    destruct (deliver_frames cf app app_passive no_ping_timeout fs lfs c open ms open' Hidle Hdh Hpl Hforms Href)
+    destruct (deliver_frames cf app app_benign no_ping_timeout fs lfs c open ms open' Hidle Hdh Hpl Hforms Href)
       as (c1 & E1 & Hidle1 & Hdh1 & M1 & _ & _).
     pose proof (feed_ok_no_protocol_error cf app c _ c1 E1) as P1.
     rewrite (feed_split cf app (length (encode_all fs lfs)) (encode_all fs lfs) (hdr_bytes h lf len ++ rest) c (le_n _) (idle_ok c open Hidle)).
